@@ -552,6 +552,18 @@ def suite_kernel_angular(ctx, K, rng, ncases):
 # B. Euclidean kernel, exact squared distances + 1-ulp square root
 # --------------------------------------------------------------------------
 
+def within_one_ulp(dv, s):
+    """|dv - sqrt(s)| <= ulp(dv), decided exactly"""
+    if s == 0:
+        return dv == 0.0
+    if not (dv > 0) or math.isinf(dv):
+        return False
+    u = Fr(float(np.spacing(np.float32(dv))))
+    f = Fr(dv)
+    lo = max(Fr(0), f - u)
+    return lo * lo <= s <= (f + u) * (f + u)
+
+
 def suite_kernel_euclid(ctx, K, rng, ncases, maxdim):
     reqs, outs, meta = [], [], []
     for c in range(ncases):
@@ -571,17 +583,6 @@ def suite_kernel_euclid(ctx, K, rng, ncases, maxdim):
         ctx.count(f"kernel-euclid:d={d}")
         ctx.case(("ke", reqs[-1]), n >= 2,
                  {"suite": "kernel-euclid", "request": reqs[-1]} if n <= 3 and d <= 2 else None)
-
-    def within_one_ulp(dv, s):
-        """|dv - sqrt(s)| <= ulp(dv), decided exactly"""
-        if s == 0:
-            return dv == 0.0
-        if not (dv > 0) or math.isinf(dv):
-            return False
-        u = Fr(float(np.spacing(np.float32(dv))))
-        f = Fr(dv)
-        lo = max(Fr(0), f - u)
-        return lo * lo <= s <= (f + u) * (f + u)
 
     def judge(i, m):
         D, err = outs[i]
@@ -716,10 +717,11 @@ def suite_grid_node_number(ctx, Grid, rng, ncases):
 
 def suite_rect(ctx, Grid, GeoGrid, rng, ncases):
     reqs, impl = [], []
+    greqs, gimpl = [], []           # round 4: GeoGrid.coord_sequence_from_rect_grid
     shapes = set()
     for c in range(ncases):
         cur = {}
-        with ImplGuard(ctx, "rect", cur, [reqs, impl]):
+        with ImplGuard(ctx, "rect", cur, [reqs, impl, greqs, gimpl]):
             d = rng.choice([1, 2, 2, 2, 3, 3, 4])
             sizes = [rng.choice([0, 1, 2, 2, 3, 3, 4]) if rng.random() < 0.9 else 5
                      for _ in range(d)]
@@ -768,6 +770,8 @@ def suite_rect(ctx, Grid, GeoGrid, rng, ncases):
                 lo = np.array(axes[1], dtype=float)
                 try:
                     ls, os_ = GeoGrid.coord_sequence_from_rect_grid(la, lo)
+                    greqs.append(f"georect {enc_ints(axes[0])} {enc_ints(axes[1])}")
+                    gimpl.append(enc_ints(ls) + ";" + enc_ints(os_))
                     ok = seq is not None and np.array_equal(ls, seq[0]) and np.array_equal(os_, seq[1])
                     if sizes[0] and sizes[1]:
                         gg = GeoGrid.RegularGrid(np.arange(2), (la, lo), silence_level=3)
@@ -788,6 +792,7 @@ def suite_rect(ctx, Grid, GeoGrid, rng, ncases):
                              {"lat_grid": axes[0], "lon_grid": axes[1], "observed": ans})
     ctx.extra["rect_shapes"] = len(shapes)
     ctx.correspond("Lean rectGrid == Grid.coord_sequence_from_rect_grid", reqs, impl)
+    ctx.correspond("Lean geoRectGrid == GeoGrid.coord_sequence_from_rect_grid", greqs, gimpl)
 
 
 # --------------------------------------------------------------------------
@@ -969,7 +974,7 @@ def suite_angular(ctx, GeoGrid, rng, ncases, K):
         "max_abs_err_log2": round(math.log2(stats["abs"]), 2) if stats["abs"] else None,
         "max_rel_err_mid_log2": round(math.log2(stats["rel"]), 2) if stats["rel"] else None,
         "bounds_log2": {"abs": -10, "rel_mid": -17}}
-    custom_correspond(ctx, "Lean angularDistance (Float) ~ GeoGrid.angular_distance "
+    custom_correspond(ctx, "Lean gridDistance .geo (Float, GeoGrid object) ~ GeoGrid.angular_distance / distance "
                       "(abs < 2^-10, rel <= 2^-17 on [0.25, pi-0.25])", reqs, judge)
 
 
@@ -979,9 +984,10 @@ def suite_angular(ctx, GeoGrid, rng, ncases, K):
 
 def suite_euclid(ctx, Grid, rng, ncases, maxdim):
     reqs, outs = [], []
+    xreqs, xouts = [], []           # round 4: object level, exact squared distances
     for c in range(ncases):
         cur = {}
-        with ImplGuard(ctx, "Grid.euclidean_distance", cur, [reqs, outs]):
+        with ImplGuard(ctx, "Grid.euclidean_distance", cur, [reqs, outs, xreqs, xouts]):
             n = rng.choice([1, 2, 3, 5, 8, 12])
             d = rng.randrange(1, maxdim + 1)
             kind, X = gen_euc_coords(rng, d, n)
@@ -1023,8 +1029,16 @@ def suite_euclid(ctx, Grid, rng, ncases, maxdim):
                          f"Grid.euclidean_distance: {what}",
                          {"space_seq": X, "clause": clause, "what": what,
                           "observed": D.astype(float).tolist(), "closed_form": R.tolist()})
-            reqs.append(f"eucld {d} {n} {enc_ratmat(X32.astype(np.float64).tolist())}")
+            # the model is asked about the array the object holds (its shape, not the generator's)
+            sd, sn = (int(v) for v in X32.shape)
+            reqs.append(f"eucld {sd} {sn} {enc_ratmat(X32.astype(np.float64).tolist())}")
             outs.append(D)
+            if kind in ("lattice", "regular"):
+                # small integers: squares and their sums are exact in float32, so the model's
+                # exact squared distances bracket the stored value to one ulp of the root
+                xreqs.append(f"eucobj2 {sd} {sn} {enc_ratmat(X32.astype(np.float64).tolist())}")
+                xouts.append(D)
+                ctx.count(f"euclid:exact-object-level:d={d}")
 
     def judge(i, m):
         Mm = np.array(dec_floatmat(m), dtype=np.float64)
@@ -1039,8 +1053,24 @@ def suite_euclid(ctx, Grid, rng, ncases, maxdim):
             return f"[{a},{b}] model {Mm[a, b]!r} impl {D[a, b]!r}"
         return None
 
-    custom_correspond(ctx, "Lean euclideanDistance (Float) ~ Grid.euclidean_distance "
-                      "(rel <= 2^-20)", reqs, judge)
+    custom_correspond(ctx, "Lean gridDistance .euclid (Float, object of shape (d, n)) ~ "
+                      "Grid.euclidean_distance (rel <= 2^-20)", reqs, judge)
+
+    def judge_x(i, m):
+        S2 = dec_ratmat(m)
+        D = xouts[i]
+        if len(S2) != D.shape[0] or D.ndim != 2 or D.shape[0] != D.shape[1]:
+            return f"shape model {len(S2)} impl {D.shape}"
+        for a in range(len(S2)):
+            for b in range(len(S2)):
+                if not within_one_ulp(float(D[a, b]), S2[a][b]):
+                    return (f"entry [{a},{b}]: impl {float(D[a, b])!r} not within 1 ulp of "
+                            f"sqrt(model {S2[a][b]})")
+        return None
+
+    custom_correspond(ctx, "Lean gridEuclideanDistance (Rat, squared, object level) == "
+                      "Grid.euclidean_distance on integer grids of dimension 1-5 / regular grids "
+                      "(sqrt within 1 float32 ulp)", xreqs, judge_x)
 
 
 # --------------------------------------------------------------------------
@@ -1424,6 +1454,27 @@ def suite_link_distance(ctx, Grid, GeoGrid, GeoNetwork, SpatialNetwork, rng, nca
                         mimpl.append((got, "average_link_distance"))
                     except Exception:  # noqa
                         pass
+            if geo:
+                # round 4: connectivity weighted / total link distances, evaluated by the model on
+                # the implementation's own distance matrix and cos_lat table (exact rationals)
+                wtxt = enc_rats([float(v) for v in g.cos_lat()])
+                und = "dir" if directed else "undir"
+                for nm, mode in (("connectivity_weighted_distance", und),
+                                 ("inconnectivity_weighted_distance", "in"),
+                                 ("outconnectivity_weighted_distance", "out")):
+                    with np.errstate(all="ignore"):
+                        got = [float(v) for v in getattr(net, nm)()]
+                    mreqs.append(f"cwd {mode} {n} {dtxt} {atxt} {wtxt}")
+                    mimpl.append((got, nm))
+                    ctx.count(f"link-distance:model:{nm}:directed={directed}")
+                for nm, mode in (("total_link_distance", und), ("intotal_link_distance", "in"),
+                                 ("outtotal_link_distance", "out")):
+                    for corr in (False, True):
+                        with np.errstate(all="ignore"):
+                            got = [float(v) for v in getattr(net, nm)(geometry_corrected=corr)]
+                        mreqs.append(f"tld {mode} {int(corr)} {n} {dtxt} {atxt} {wtxt}")
+                        mimpl.append((got, nm))
+                        ctx.count(f"link-distance:model:{nm}:corrected={corr}")
 
     def judge(i, m):
         got, nm = mimpl[i]
@@ -1441,9 +1492,10 @@ def suite_link_distance(ctx, Grid, GeoGrid, GeoNetwork, SpatialNetwork, rng, nca
                 return f"model {float(a)!r} impl {b!r}"
         return None
 
-    custom_correspond(ctx, "Lean maxLinkDistNet / inALD / outALD / avgALD (Rat, on the "
-                      "implementation's distance matrix) ~ SpatialNetwork link distance measures "
-                      "(max exact, means rel 2^-18)", mreqs, judge)
+    custom_correspond(ctx, "Lean maxLinkDistNet / inALD / outALD / avgALD / (in|out)CWD / (in|out)TLD "
+                      "(Rat, on the implementation's distance matrix and cos_lat table) ~ "
+                      "SpatialNetwork / GeoNetwork link distance measures (max exact, means rel 2^-18)",
+                      mreqs, judge)
 
 
 # --------------------------------------------------------------------------
